@@ -104,12 +104,10 @@ pub open spec fn pow_int(b: int, e: nat) -> int decreases e { if e == 0 { 1 } el
 pub open spec fn tdiv(a: int, b: int) -> int recommends b != 0 {
     if a >= 0 && b > 0 { a / b } else if a < 0 && b > 0 { -((-a) / b) } else if a >= 0 && b < 0 { -(a / (-b)) } else { (-a) / (-b) }
 }
-pub open spec fn trem(a: int, b: int) -> int recommends b != 0 { a - b * tdiv(a, b) }
-// flooring division / modulus
-pub open spec fn fdiv(a: int, b: int) -> int recommends b != 0 {
-    if b > 0 { a / b } else { (-a) / (-b) }
-}
-pub open spec fn fmod(a: int, b: int) -> int recommends b != 0 { a - b * fdiv(a, b) }
+pub open spec fn trem(a: int, b: int) -> int recommends b != 0 { vstd::arithmetic::div_mod::rust_rem(a, b) }
+// flooring division / modulus (result of mod has the sign of the divisor)
+pub open spec fn fdiv(a: int, b: int) -> int recommends b != 0 { if b > 0 { a / b } else { (-a) / (-b) } }
+pub open spec fn fmod(a: int, b: int) -> int recommends b != 0 { if b > 0 { a % b } else { -((-a) % (-b)) } }
 pub uninterp spec fn gcd_int(a: int, b: int) -> int;
 pub uninterp spec fn bitand_int(a: int, b: int) -> int;
 pub uninterp spec fn bitor_int(a: int, b: int) -> int;
